@@ -12,6 +12,7 @@
 import BlocV.Proofs.Lemmas.Vars
 import BlocV.Proofs.Lemmas.Loops
 import BlocV.Proofs.Lemmas.Interp
+import BlocV.Proofs.Lemmas.Lock
 import BlocV.Proofs.Lemmas.Int64
 import BlocV.Proofs.C09
 import BlocV.Spec.Loops
@@ -905,4 +906,189 @@ theorem execList_error (funcs : List Func) (depth fuel : Nat) (st : Stmt) (rest 
     execList funcs depth (fuel + 1) (st :: rest) s = (.err c a, s1) := by
   simp only [execList, bind_app, h]
 
+
+/-- **A body that assigns the control variable** (manual: allowed — the loop continues from the assigned value): whatever the body did
+to the variable, if it ends normally or with `continue` leaving the INTEGER `a` in it, then
+(1) when `a + step` — computed in ℤ, no wrap-around — lies beyond the limit in the direction of the step (`> max` ascending, `< min`
+descending) the loop ends normally right there, the variable keeping `a`: also when `a` is already beyond the limit, equal to it, or
+inside the last partial-step window `(limit − step, limit]`, and at INT64_MAX / INT64_MIN;
+(2) otherwise the next iteration runs with the variable `a + step`, which as an Int64 is exactly `a + step` (no wrap) and lies inside
+[min, max]. (A null left in the variable: `forLoop_null_variable`, NOT_INTEGER.) Any body, any state, any `a`. -/
+theorem for_body_assignment (body : EvalM Flow) (v : String) (min max step : Int64) (k : Nat) (s s1 : St) (r : Flow) (a : Int64)
+    (hb : body s = (.ok r, s1)) (hr : r = .norm ∨ r = .cont) (hv : lookupVar s1.vars v = .int a) (hstep : step > 0 ∨ step < 0) :
+    (((step > 0 ∧ a.toInt + step.toInt > max.toInt) ∨ (step < 0 ∧ a.toInt + step.toInt < min.toInt)) →
+      forLoop body v min max step (k + 1) s = (.ok .norm, s1)) ∧
+    (¬ ((step > 0 ∧ a.toInt + step.toInt > max.toInt) ∨ (step < 0 ∧ a.toInt + step.toInt < min.toInt)) →
+      forLoop body v min max step (k + 1) s = forLoop body v min max step k { s1 with vars := setVar s1.vars v (.int (a + step)) } ∧
+      (a + step).toInt = a.toInt + step.toInt ∧
+      ((step > 0 → (a + step).toInt ≤ max.toInt) ∧ (step < 0 → min.toInt ≤ (a + step).toInt))) := by
+  have hit := forLoop_iteration body v min max step k s s1 r a hb hr hv
+  have h0 : (0 : Int64).toInt = 0 := by decide
+  constructor
+  · intro hc
+    rw [hit, if_pos]
+    rcases hc with ⟨h1, h2⟩ | ⟨h1, h2⟩
+    · simp [h1, h2]
+    · simp [h1, h2]
+  · intro hc
+    have hneg : ¬ (((step > 0 && a.toInt + step.toInt > max.toInt) || (step < 0 && a.toInt + step.toInt < min.toInt)) = true) := by
+      intro h
+      apply hc
+      simp only [Bool.or_eq_true, Bool.and_eq_true, decide_eq_true_eq] at h
+      exact h
+    rw [hit, if_neg hneg]
+    have hp : step > 0 ↔ 0 < step.toInt := by
+      show (0 : Int64) < step ↔ _
+      rw [Int64.lt_iff_toInt_lt, h0]
+    have hn : step < 0 ↔ step.toInt < 0 := by
+      rw [Int64.lt_iff_toInt_lt, h0]
+    have ha1 := Int64.le_toInt a; have ha2 := Int64.toInt_lt a
+    have hx1 := Int64.le_toInt min; have hx2 := Int64.toInt_lt max
+    have hsum : (a + step).toInt = a.toInt + step.toInt := by
+      apply toInt_add_small
+      · rcases hstep with h | h
+        · have := hp.mp h; omega
+        · have := hn.mp h
+          have : ¬ (a.toInt + step.toInt < min.toInt) := fun h' => hc (Or.inr ⟨h, h'⟩)
+          omega
+      · rcases hstep with h | h
+        · have : ¬ (a.toInt + step.toInt > max.toInt) := fun h' => hc (Or.inl ⟨h, h'⟩)
+          omega
+        · have := hn.mp h; omega
+    refine ⟨rfl, hsum, ?_, ?_⟩
+    · intro h
+      have : ¬ (a.toInt + step.toInt > max.toInt) := fun h' => hc (Or.inl ⟨h, h'⟩)
+      omega
+    · intro h
+      have : ¬ (a.toInt + step.toInt < min.toInt) := fun h' => hc (Or.inr ⟨h, h'⟩)
+      omega
+
+/-- `for k in 0 to 10 step 3 loop print k; if k == 3 then k = 8; end if; end loop`: 8 lies in the last window (7, 10]: 0 3 then the loop ends (8+3 > 10);
+with `k = 7` instead the trace is 0 3 10 -/
+example : ((execList [] 0 30 [.forS "k" (.lit (.int 0)) (.lit (.int 10)) (some (.lit (.int 3))) .auto
+      [.printS [.var "k"], .ifS [(some (.bin .eq (.var "k") (.lit (.int 3))), [.letS "k" (.lit (.int 8))])]]] {}).2.output,
+    (execList [] 0 30 [.forS "k" (.lit (.int 0)) (.lit (.int 10)) (some (.lit (.int 3))) .auto
+      [.printS [.var "k"], .ifS [(some (.bin .eq (.var "k") (.lit (.int 3))), [.letS "k" (.lit (.int 7))])]]] {}).2.output) =
+    ([48, 10, 51, 10], [48, 10, 51, 10, 49, 48, 10]) := by decide +kernel
+
+/-! ## the compile-time lock: `QuietAlongF` is no longer a hypothesis for bodies the parser accepts
+
+`lockL L body` (Model/Interp.lean) = the parser accepts `body` while the names `L` are locked (tied to Parser::parse by the check's
+`lock` family). `Lemmas.lock_all`: such code never changes the number of elements of a table in `L`. With `sameIters_all` (the
+loop's control entry stays in place) this gives `QuietAlongF` from the one thing that really is run-dependent: that the iterations end
+normally or with `continue` (`EndsNormAlong`; a `break`, `return` or error cuts the traversal short by definition). -/
+
+/-- **What the lock buys**: code accepted while `t` is locked leaves the number of elements of `t` alone — every statement list, fuel, depth,
+state, outcome (error, break, out of fuel included). -/
+theorem locked_code_keeps_table_length (funcs : List Func) (depth fuel : Nat) (t : String) (L : List String) (body : List Stmt) (s : St)
+    (ht : t ∈ L) (hl : lockL L body = true) :
+    tableSize (lookupVar (execList funcs depth fuel body s).2.vars t) = tableSize (lookupVar s.vars t) :=
+  ((lock_all t funcs fuel).2.2.2.2.1 L depth body ht hl).h s
+
+/-- every iteration of the traversal, run from the state the run reaches, ends normally or with `continue` -/
+def EndsNormAlong (body : EvalM Flow) : St → List Nat → Prop
+  | _, [] => True
+  | s, [_] => (body s).1 = .ok .norm ∨ (body s).1 = .ok .cont
+  | s, _ :: j :: rest => ((body s).1 = .ok .norm ∨ (body s).1 = .ok .cont) ∧ EndsNormAlong body (stepTo (bodySt body s) j) (j :: rest)
+
+/-- the loop's own control entry is on top, traverses variable `t` at index `i`, and `t` has `n` elements -/
+def LoopInv (it t : String) (n : Nat) (s : St) (i : Nat) : Prop :=
+  ∃ b rest, s.iters = b :: rest ∧ b.it = it ∧ b.src = some t ∧ b.idx = i ∧ tableSize (lookupVar s.vars t) = n
+
+/-- one run of a lock-respecting body keeps the loop invariant -/
+theorem loopInv_body (funcs : List Func) (depth fuel : Nat) (stmts : List Stmt) (L : List String) (it t : String) (n : Nat)
+    (ht : t ∈ L) (hl : lockL L stmts = true) (s : St) (i : Nat) (h : LoopInv it t n s i) :
+    LoopInv it t n (execList funcs depth fuel stmts s).2 i := by
+  obtain ⟨b, rest, hi, hit, hsrc, hidx, hn⟩ := h
+  have hk := ((sameIters_all funcs fuel).2.2.2.2.1 depth stmts).h s
+  have hlen := locked_code_keeps_table_length funcs depth fuel t L stmts s ht hl
+  unfold SameIters at hk
+  rw [hi] at hk
+  cases hi' : (execList funcs depth fuel stmts s).2.iters with
+  | nil => rw [hi'] at hk; simp at hk
+  | cons b' rest' =>
+    rw [hi'] at hk
+    simp only [List.map_cons, List.cons.injEq] at hk
+    have hkey := hk.1
+    unfold iterKey at hkey
+    simp only [Prod.mk.injEq] at hkey
+    exact ⟨b', rest', hi', hkey.1.trans hit, hkey.2.1.trans hsrc, hkey.2.2.1.trans hidx, hlen.trans hn⟩
+
+/-- **`QuietAlongF` from the lock**: for a body the parser accepts under the lock of `t`, the run-local quietness of C06's traversal theorems
+follows from "every iteration ends normally or with continue". -/
+theorem quietAlongF_of_lock (funcs : List Func) (depth fuel : Nat) (stmts : List Stmt) (L : List String) (it t : String) (n : Nat)
+    (ht : t ∈ L) (hl : lockL L stmts = true) :
+    ∀ (is : List Nat) (i : Nat) (s : St), LoopInv it t n s i →
+      EndsNormAlong (execList funcs depth fuel stmts) s (i :: is) → QuietAlongF (execList funcs depth fuel stmts) it n s (i :: is) := by
+  have hat : ∀ (s : St) (i : Nat), LoopInv it t n s i →
+      ((execList funcs depth fuel stmts s).1 = .ok .norm ∨ (execList funcs depth fuel stmts s).1 = .ok .cont) →
+      QuietAtF (execList funcs depth fuel stmts) it n s i := by
+    intro s i hinv hfl
+    obtain ⟨b', rest', hi', hit', hsrc', hidx', hn'⟩ := loopInv_body funcs depth fuel stmts L it t n ht hl s i hinv
+    refine ⟨hfl, b', rest', hi', hit', hidx', ?_⟩
+    unfold St.iterTable; rw [hsrc']; exact hn'
+  intro is
+  induction is with
+  | nil => intro i s hinv he; exact hat s i hinv he
+  | cons j rest ih =>
+    intro i s hinv he
+    obtain ⟨he1, he2⟩ := he
+    refine ⟨hat s i hinv he1, ih j _ ?_ he2⟩
+    obtain ⟨b', rest', hi', hit', hsrc', hidx', hn'⟩ := loopInv_body funcs depth fuel stmts L it t n ht hl s i hinv
+    unfold stepTo bodySt
+    rw [hi']
+    exact ⟨{ b' with idx := j }, rest', rfl, hit', hsrc', rfl, hn'⟩
+
+/-- the traversal order of a non-empty table starts at the first index of the requested direction -/
+theorem forallOrder_head (desc : Bool) (n : Nat) (h : 0 < n) : ∃ rest, forallOrder desc n = (if desc then n - 1 else 0) :: rest := by
+  obtain ⟨m, rfl⟩ : ∃ m, n = m + 1 := ⟨n - 1, by omega⟩
+  unfold forallOrder
+  cases desc
+  · exact ⟨List.map Nat.succ (List.range m), by simp [List.range_succ_eq_map]⟩
+  · exact ⟨(List.range m).reverse, by simp [List.range_succ]⟩
+
+/-- **forall visits every element once, in the requested order — for every body the parser accepts** (statement level, table variable):
+`exec_forall_var_visits` with the hypothesis `QuietAlongF` replaced by (1) `lockL L body` for some lock set containing `t` — what
+Parser::parse enforces for the body of `forall it in t` — and (2) every iteration ends normally or with `continue`. -/
+theorem exec_forall_var_visits_locked (funcs : List Func) (depth fuel : Nat) (it t : String) (dir : Dir) (body : List Stmt)
+    (s : St) (ty : Ty) (d : List Ty) (es : List Val) (L : List String) (hbud : s.budget ≠ 0)
+    (ht : lookupVar s.vars t = .tab ty d es) (hl : (ty.level == 0) = false) (hne : es ≠ [])
+    (hit : s.iters.any (·.it == it) = false) (htt : s.iters.any (·.it == t) = false)
+    (hfuel : es.length < fuel + 1)
+    (htL : t ∈ L) (hlock : lockL L body = true)
+    (hn : EndsNormAlong (execList funcs depth (fuel + 1) body)
+      { tick s with iters := forallEntry s it t (dir == .desc) es.length :: s.iters } (forallOrder (dir == .desc) es.length)) :
+    exec funcs depth (fuel + 2) (.forallS it (.var t) dir body) s =
+      forallExit it (.ok .norm, runOverF (execList funcs depth (fuel + 1) body)
+        { tick s with iters := forallEntry s it t (dir == .desc) es.length :: s.iters } (forallOrder (dir == .desc) es.length)) := by
+  have hpos : 0 < es.length := by cases es with | nil => exact absurd rfl hne | cons _ _ => simp
+  obtain ⟨rest, hord⟩ := forallOrder_head (dir == .desc) es.length hpos
+  apply exec_forall_var_visits funcs depth fuel it t dir body s ty d es hbud ht hl hne hit htt hfuel
+  rw [hord] at hn ⊢
+  apply quietAlongF_of_lock funcs depth (fuel + 1) body L it t es.length htL hlock rest _ _ ?_ hn
+  refine ⟨forallEntry s it t (dir == .desc) es.length, s.iters, rfl, rfl, rfl, rfl, ?_⟩
+  show tableSize (lookupVar s.vars t) = es.length
+  rw [ht]; rfl
+
+/-- hypotheses of `exec_forall_var_visits_locked` at work: `forall e in t loop print e; x = t.count(); end loop` over a 2-element table -/
+example : exec [] 0 8 (.forallS "e" (.var "t") .auto [.printS [.var "e"], .letS "x" (.member .count (.var "t") [])])
+      { vars := [("t", .tab { major := .int, level := 1 } [] [.int 4, .int 5])] } =
+    forallExit "e" (.ok .norm, runOverF (execList [] 0 7 [.printS [.var "e"], .letS "x" (.member .count (.var "t") [])])
+      { tick { vars := [("t", .tab { major := .int, level := 1 } [] [.int 4, .int 5])] } with
+        iters := [forallEntry { vars := [("t", .tab { major := .int, level := 1 } [] [.int 4, .int 5])] } "e" "t" false 2] } [0, 1]) :=
+  exec_forall_var_visits_locked [] 0 6 "e" "t" .auto _ _ { major := .int, level := 1 } [] [.int 4, .int 5] ["t"] (by decide) (by with_unfolding_all rfl) (by decide) (by decide)
+    (by decide) (by decide) (by decide) (by decide) (by decide +kernel)
+    ⟨Or.inl (by decide +kernel), Or.inl (by decide +kernel)⟩
+
+/-- **A loop never takes back what was printed**: for every statement — `for`, `while`, `forall` with any body, left by any route
+(end of range, break, return, error, out of fuel) — the output afterwards is the output before plus what the iterations printed
+(`Lemmas.frame_all` for `OutGrows`); the `for`/`while` control entries a run could leave behind are as before. -/
+theorem statement_output_only_grows (funcs : List Func) (depth fuel : Nat) (st : Stmt) (s : St) :
+    (∃ t : Bytes, (exec funcs depth fuel st s).2.output = s.output ++ t) ∧ (exec funcs depth fuel st s).2.ctl = s.ctl :=
+  ⟨output_prefix_of_outGrows _ _ (((frame_all outGrows_frame funcs fuel).2.2.2.2.2.1 depth st).h s),
+   ((frame_all sameCtl_frame funcs fuel).2.2.2.2.2.1 depth st).h s⟩
+
+/-- `for i in 1 to 3 loop print i; if i == 2 then raise E; end if; end loop` after `print "x"`: the error leaves `x 1 2` printed -/
+example : (execList [] 0 30 [.printS [.lit (.str [120])], .forS "i" (.lit (.int 1)) (.lit (.int 3)) none .auto
+      [.printS [.var "i"], .ifS [(some (.bin .eq (.var "i") (.lit (.int 2))), [.raiseS "E"])]]] {}).2.output = [120, 10, 49, 10, 50, 10] := by decide +kernel
 end BlocV.C06
